@@ -49,6 +49,79 @@ Proof.
   rewrite app_length, repeat_length. pose proof (device_batch_covers (length x) d mdb Hd). lia.
 Qed.
 
+(* ---------------- shard / stack_forest / onehot ---------------- *)
+Theorem shard_shape d n x : 1 <= d -> 1 <= n -> length x = d * n ->
+  length (shard d x) = d /\ Forall (fun row => length row = n) (shard d x) /\ concat (shard d x) = x.
+Proof.
+  intros Hd Hn Hl. unfold shard. assert (E : length x / d = n) by (rewrite Hl, Nat.mul_comm; apply Nat.div_mul; lia).
+  rewrite E. destruct (chunks_exact n Hn d x Hl) as [H1 H2]. split; [exact H1|]. split; [exact H2|].
+  apply concat_chunks. exact Hn.
+Qed.
+
+Theorem stack_forest_entry m forest j i : j < m -> i < length forest ->
+  nth i (nth j (stack_forest m forest) []) 0%Z = nth j (nth i forest []) 0%Z.
+Proof.
+  intros Hj Hi. unfold stack_forest.
+  rewrite (nth_indep _ [] ((fun j => map (fun t => nth j t 0%Z) forest) 0)) by (rewrite map_length, seq_length; exact Hj).
+  rewrite (map_nth (fun j => map (fun t => nth j t 0%Z) forest)), seq_nth by exact Hj. cbn [plus].
+  rewrite (nth_indep _ 0%Z ((fun t => nth j t 0%Z) [])) by (rewrite map_length; exact Hi).
+  rewrite (map_nth (fun t => nth j t 0%Z)). reflexivity.
+Qed.
+
+Theorem stack_forest_shape m forest : length (stack_forest m forest) = m /\ Forall (fun leaf => length leaf = length forest) (stack_forest m forest).
+Proof.
+  unfold stack_forest. split; [now rewrite map_length, seq_length|]. apply Forall_forall. intros leaf Hin.
+  apply in_map_iff in Hin. destruct Hin as [j [<- _]]. now rewrite map_length.
+Qed.
+
+Lemma onehot_row_nth (l : Z) k (on off : Z) j : j < k ->
+  nth j (map (fun j => if (Z.of_nat j =? l)%Z then on else off) (seq 0 k)) off = if (Z.of_nat j =? l)%Z then on else off.
+Proof.
+  intros Hj. rewrite (nth_indep _ off ((fun j => if (Z.of_nat j =? l)%Z then on else off) 0)) by (rewrite map_length, seq_length; exact Hj).
+  rewrite (map_nth (fun j => if (Z.of_nat j =? l)%Z then on else off)), seq_nth by exact Hj. reflexivity.
+Qed.
+
+(* entry (i, j) is on_value exactly when j is the label of example i; one row per label, num_classes entries per row *)
+Theorem onehot_entry labels k on off i j : i < length labels -> j < k ->
+  nth j (nth i (onehot labels k on off) []) off = if (Z.of_nat j =? nth i labels 0%Z)%Z then on else off.
+Proof.
+  intros Hi Hj. unfold onehot.
+  rewrite (nth_indep _ [] ((fun l => map (fun j => if (Z.of_nat j =? l)%Z then on else off) (seq 0 k)) 0%Z)) by (rewrite map_length; exact Hi).
+  rewrite (map_nth (fun l => map (fun j => if (Z.of_nat j =? l)%Z then on else off) (seq 0 k))). apply onehot_row_nth. exact Hj.
+Qed.
+
+Theorem onehot_shape labels k on off : length (onehot labels k on off) = length labels /\ Forall (fun row => length row = k) (onehot labels k on off).
+Proof.
+  unfold onehot. split; [now rewrite map_length|]. apply Forall_forall. intros row Hin. apply in_map_iff in Hin.
+  destruct Hin as [l [<- _]]. now rewrite map_length, seq_length.
+Qed.
+
+(* a label inside [0, num_classes) lights exactly one position; any other label (negative, too large) lights none *)
+Lemma count_on_seq (l on off : Z) (Hne : on <> off) : forall k s,
+  count_occ Z.eq_dec (map (fun j => if (Z.of_nat j =? l)%Z then on else off) (seq s k)) on =
+  if ((Z.of_nat s <=? l) && (l <? Z.of_nat (s + k)))%Z then 1 else 0.
+Proof.
+  induction k as [|k IH]; intros s.
+  - cbn [seq map count_occ]. destruct (Z.leb_spec (Z.of_nat s) l), (Z.ltb_spec l (Z.of_nat (s + 0))); cbn [andb]; try reflexivity. lia.
+  - cbn [seq map count_occ]. rewrite IH. destruct (Z.eqb_spec (Z.of_nat s) l) as [E|E].
+    + destruct (Z.eq_dec on on) as [_|C]; [|contradiction].
+      destruct (Z.leb_spec (Z.of_nat (S s)) l); [lia|]. cbn [andb].
+      destruct (Z.leb_spec (Z.of_nat s) l), (Z.ltb_spec l (Z.of_nat (s + S k))); cbn [andb]; try reflexivity; lia.
+    + destruct (Z.eq_dec off on) as [C|_]; [symmetry in C; contradiction|].
+      destruct (Z.leb_spec (Z.of_nat (S s)) l), (Z.ltb_spec l (Z.of_nat (S s + k))), (Z.leb_spec (Z.of_nat s) l), (Z.ltb_spec l (Z.of_nat (s + S k)));
+        cbn [andb]; try reflexivity; lia.
+Qed.
+
+Theorem onehot_exactly_one labels k on off i : on <> off -> i < length labels ->
+  count_occ Z.eq_dec (nth i (onehot labels k on off) []) on =
+  if ((0 <=? nth i labels 0%Z) && (nth i labels 0%Z <? Z.of_nat k))%Z then 1 else 0.
+Proof.
+  intros Hne Hi. unfold onehot.
+  rewrite (nth_indep _ [] ((fun l => map (fun j => if (Z.of_nat j =? l)%Z then on else off) (seq 0 k)) 0%Z)) by (rewrite map_length; exact Hi).
+  rewrite (map_nth (fun l => map (fun j => if (Z.of_nat j =? l)%Z then on else off) (seq 0 k))).
+  rewrite (count_on_seq _ on off Hne k 0). reflexivity.
+Qed.
+
 (* ---------------- _invert_perm ---------------- *)
 Lemma nth_set_nth_nat i v l j : nth j (set_nth_nat i v l) 0 = if Nat.eqb j i then (if Nat.ltb i (length l) then v else 0) else nth j l 0.
 Proof.
